@@ -30,6 +30,7 @@ type HarnessGroup struct {
 	Require      []string                  `json:"require_reach"`
 	ThoroughOnly []string                  `json:"thorough_only"`
 	ExtraInterp  []string                  `json:"extra_interp"`
+	RewritePkgs  []string                  `json:"rewrite_pkgs"`
 }
 
 type CheckSpec struct {
@@ -53,14 +54,15 @@ type KnownFinding struct {
 }
 
 type ReplayFile struct {
-	Property   string            `json:"property"`
-	Harness    string            `json:"harness"`
-	Package    string            `json:"package"`
-	Sets       []string          `json:"sets"`
-	Redirects  string            `json:"redirects"`
-	Params     map[string]int    `json:"params"`
-	Assignment map[string]uint64 `json:"assignment"`
-	Expect     struct {
+	Property    string            `json:"property"`
+	Harness     string            `json:"harness"`
+	Package     string            `json:"package"`
+	Sets        []string          `json:"sets"`
+	Redirects   string            `json:"redirects"`
+	Params      map[string]int    `json:"params"`
+	Assignment  map[string]uint64 `json:"assignment"`
+	RewritePkgs []string          `json:"rewrite_pkgs"`
+	Expect      struct {
 		Kind string `json:"kind"`
 		ID   string `json:"id"`
 		Msg  string `json:"msg"`
@@ -240,7 +242,7 @@ func cmdCheck(args []string) int {
 			}
 			g := spec.Groups[res.groupIdx]
 			rf := ReplayFile{Property: prop, Harness: res.Harness, Package: res.Package, Sets: g.Sets, Redirects: g.Redirects,
-				Params: res.Params, Assignment: v.Assignment}
+				Params: res.Params, Assignment: v.Assignment, RewritePkgs: g.RewritePkgs}
 			rf.Expect.Kind, rf.Expect.ID, rf.Expect.Msg = v.Kind, v.ID, v.Msg
 			os.MkdirAll(replayDir, 0755)
 			rpath := filepath.Join(replayDir, sanitize(res.Harness+"-"+key)+".json")
